@@ -1322,9 +1322,21 @@ theorem u32At_le64_hi (v : Nat) (h : v < 18446744073709551616) : u32At (le64 v) 
 
 theorem fromSlice_dirEntry (name : List Char) (typ : UInt8) (start size ss : Nat) (hn : nameEncOK name = true)
     (hs : start < 4294967296) (hsz : (ss = 512 ∧ size < 4294967296) ∨ (ss ≠ 512 ∧ size < 18446744073709551616)) :
-    Dir.fromSlice (dirEntry name typ start size) ss = .ok ⟨name, start, size⟩ := by
+    Dir.fromSlice (dirEntry name typ start size) ss = .ok ⟨name, start, size, typ.toNat⟩ := by
   obtain ⟨_, hle, _⟩ := nameEncOK_spec name hn
   have hH := entryHead_length name typ hle
+  have h66 : byteAt (dirEntry name typ start size) 66 = typ.toNat := by
+    rw [dirEntry_eq, byteAt_append_left _ _ 66 (by rw [hH]; omega)]
+    unfold entryHead
+    simp only [List.append_assoc]
+    rw [← List.append_assoc (nameField name)]
+    have hp : (nameField name ++ le16 ((le16s (utf16Units name)).length + 2)).length = 66 := by
+      simp only [List.length_append, nameField_length name hle, le16, List.length_cons, List.length_nil]
+    have := byteAt_append_right (nameField name ++ le16 ((le16s (utf16Units name)).length + 2))
+      ([typ, 1] ++ (le32 FREESECT ++ (le32 FREESECT ++ (le32 FREESECT ++ List.replicate 36 0)))) 0
+    rw [hp] at this
+    rw [this]
+    simp [byteAt]
   have hlen : (dirEntry name typ start size).length = 128 := by
     rw [dirEntry_eq]; simp only [List.length_append, hH, le32_length, le64]
   have htake : (dirEntry name typ start size).take 64 = nameField name := by
@@ -1346,7 +1358,7 @@ theorem fromSlice_dirEntry (name : List Char) (typ : UInt8) (start size ss : Nat
   simp only [hlen, htake]
   have n1 : ¬ (128 < 120) := by omega
   have n2 : ¬ (128 < 124) := by omega
-  simp only [Nat.lt_irrefl, if_false, n1, n2, hname, h116]
+  simp only [Nat.lt_irrefl, if_false, n1, n2, hname, h116, h66]
   rcases hsz with ⟨h1, h2⟩ | ⟨h1, h2⟩
   · simp only [h1, if_true, h120]
     rw [Nat.mod_eq_of_lt h2]
@@ -1364,7 +1376,7 @@ theorem fromSlice_dirEntry (name : List Char) (typ : UInt8) (start size ss : Nat
 /-! ## parsing the directory -/
 
 
-def unusedDir : Dir := ⟨[], 0, 0⟩
+def unusedDir : Dir := ⟨[], 0, 0, 0⟩
 
 theorem fromSlice_unused (ss : Nat) : Dir.fromSlice unusedEntry ss = .ok unusedDir := by
   have hlen : unusedEntry.length = 128 := rfl
@@ -1373,8 +1385,9 @@ theorem fromSlice_unused (ss : Nat) : Dir.fromSlice unusedEntry ss = .ok unusedD
   have h116 : u32At unusedEntry 116 = 0 := by decide
   have h120 : u32At unusedEntry 120 = 0 := by decide
   have h64 : u64At unusedEntry 120 = 0 := by decide
+  have h66 : byteAt unusedEntry 66 = 0 := by decide
   unfold Dir.fromSlice
-  simp only [hlen, hname, hnul, h116, h120, h64]
+  simp only [hlen, hname, hnul, h116, h120, h64, h66]
   have n1 : ¬ (128 < 120) := by omega
   have n2 : ¬ (128 < 124) := by omega
   simp only [n1, n2, Nat.lt_irrefl, if_false]
@@ -1454,14 +1467,14 @@ theorem parseDirs_unused (ss k : Nat) : parseDirs ss (List.replicate k unusedEnt
 
 def streamDir (streams : List Stream) (L : Layout) (s : Nat) : Dir :=
   match streams[s]? with
-  | some st => ⟨st.name, if isMini st then chainStart L.mini s else chainStart L.main (3 + s), st.data.length⟩
+  | some st => ⟨st.name, if isMini st then chainStart L.mini s else chainStart L.main (3 + s), st.data.length, 2⟩
   | none => unusedDir
 
 def slotDir (streams : List Stream) (L : Layout) : Option Nat → Dir
   | some s => streamDir streams L s
   | none => unusedDir
 
-def rootDir (L : Layout) : Dir := ⟨rootName, chainStart L.main 2, 64 * L.mtotal⟩
+def rootDir (L : Layout) : Dir := ⟨rootName, chainStart L.main 2, 64 * L.mtotal, 5⟩
 
 def dirPad (L : Layout) : Nat :=
   nsect (L.ss / 128) (1 + L.dirOrder.length) * (L.ss / 128) - (1 + L.dirOrder.length)
@@ -1518,10 +1531,7 @@ theorem stream_size_lt (streams : List Stream) (L : Layout) (hv : ValidP streams
       · rcases ss_cases L with ⟨h, _⟩ | ⟨h, _⟩ <;> omega
     omega
 
-theorem nameOK_enc (name : List Char) (h : nameOK name = true) : nameEncOK name = true ∧ name ≠ rootName := by
-  unfold nameOK at h
-  simp only [Bool.and_eq_true, bne_iff_ne, ne_eq] at h
-  exact h
+theorem nameOK_enc (name : List Char) (h : nameOK name = true) : nameEncOK name = true ∧ True := ⟨h, trivial⟩
 
 theorem fromSlice_streamEntry (streams : List Stream) (L : Layout) (hv : ValidP streams L) (s : Nat)
     (hs : s < streams.length) :
@@ -2026,37 +2036,37 @@ theorem stream_idx_unique (streams : List Stream) (hnd : (streams.map (·.name))
 
 theorem find_stream (streams : List Stream) (L : Layout) (hv : ValidP streams L) (s0 : Nat) (st : Stream)
     (hst : streams[s0]? = some st) :
-    (parsedDirs streams L).find? (fun d => d.name = st.name) = some (streamDir streams L s0) := by
+    (parsedDirs streams L).find? (fun d => d.kind = STREAM_OBJECT ∧ d.name = st.name) =
+      some (streamDir streams L s0) := by
   have hs0 : s0 < streams.length := by
     by_cases hlt : s0 < streams.length
     · exact hlt
     · rw [List.getElem?_eq_none (by omega)] at hst; cases hst
-  have hmem : st ∈ streams := List.mem_of_getElem? hst
-  obtain ⟨henc, hroot⟩ := nameOK_enc _ (hv.names st hmem).1
-  have hne := name_nonempty _ henc
   have hname0 : (streamDir streams L s0).name = st.name := by simp [streamDir, hst]
+  have hkind0 : (streamDir streams L s0).kind = STREAM_OBJECT := by simp [streamDir, hst, STREAM_OBJECT]
   apply find?_unique
   · unfold parsedDirs
     simp only [List.cons_append, List.mem_cons, List.mem_append, List.mem_map]
     right; left
     exact ⟨some s0, hv.dirAll s0 hs0, rfl⟩
-  · simpa using hname0
+  · simp [hname0, hkind0]
   · intro d hd hp
-    have hp' : d.name = st.name := by simpa using hp
+    have hp' : d.kind = STREAM_OBJECT ∧ d.name = st.name := by simpa using hp
     unfold parsedDirs at hd
     simp only [List.cons_append, List.mem_cons, List.mem_append, List.mem_map, List.mem_replicate] at hd
     rcases hd with rfl | ⟨o, ho, rfl⟩ | ⟨_, rfl⟩
-    · exact absurd hp'.symm hroot
+    · exact absurd hp'.1 (by simp [rootDir, STREAM_OBJECT])
     · cases o with
-      | none => exact absurd hp'.symm hne
+      | none => exact absurd hp'.1 (by simp [slotDir, unusedDir, STREAM_OBJECT])
       | some s =>
         have hs := hv.dirRange _ ho s rfl
         obtain ⟨st', hst'⟩ : ∃ st', streams[s]? = some st' := ⟨streams[s], by simp [hs]⟩
         have hn' : st'.name = st.name := by
-          simp only [slotDir, streamDir, hst'] at hp'; exact hp'
+          have := hp'.2
+          simp only [slotDir, streamDir, hst'] at this; exact this
         have := stream_idx_unique streams hv.nodup s s0 st' st hst' hst hn'
         subst this; rfl
-    · exact absurd hp'.symm hne
+    · exact absurd hp'.1 (by simp [unusedDir, STREAM_OBJECT])
 
 
 /-- the reader state after `Cfb::new` on a generated container, and after any number of `get_stream` calls -/
@@ -2134,7 +2144,9 @@ theorem hasDirectory_layout (streams : List Stream) (L : Layout) (hv : ValidP st
   rw [hg.dirs, List.any_eq_true]
   have hmem := List.mem_of_find?_eq_some h
   have hp := List.find?_some h
-  exact ⟨_, hmem, hp⟩
+  have hp' : (streamDir streams L s0).kind = STREAM_OBJECT ∧ (streamDir streams L s0).name = streams[s0].name := by
+    simpa using hp
+  exact ⟨_, hmem, by simpa using hp'.2⟩
 
 theorem new_layout_good (streams : List Stream) (L : Layout) (hv : ValidP streams L) :
     ∃ c rd, Cfb.new (layoutCfb streams L) (layoutCfb streams L).length = .ok (c, rd) ∧ Good streams L c rd := by
@@ -2587,19 +2599,52 @@ theorem parsedDirs_names (streams : List Stream) (L : Layout) (hv : ValidP strea
       simp [slotDir, streamDir, hs]
   · right; left; rfl
 
+/-- the stream-typed entries of the directory of a generated container are the streams -/
+theorem parsedDirs_stream_kind (streams : List Stream) (L : Layout) (hv : ValidP streams L) :
+    ∀ d ∈ parsedDirs streams L, d.kind = STREAM_OBJECT → ∃ st ∈ streams, st.name = d.name := by
+  intro d hd hk
+  unfold parsedDirs at hd
+  simp only [List.cons_append, List.mem_cons, List.mem_append, List.mem_map, List.mem_replicate] at hd
+  rcases hd with rfl | ⟨o, ho, rfl⟩ | ⟨_, rfl⟩
+  · simp [rootDir, STREAM_OBJECT] at hk
+  · cases o with
+    | none => simp [slotDir, unusedDir, STREAM_OBJECT] at hk
+    | some s =>
+      have hs := hv.dirRange _ ho s rfl
+      refine ⟨streams[s], List.getElem_mem hs, ?_⟩
+      simp [slotDir, streamDir, hs]
+  · simp [unusedDir, STREAM_OBJECT] at hk
+
 theorem lookupOf_absent (streams : List Stream) (L : Layout) (hv : ValidP streams L) (c : CfbSt) (rd : Bytes)
-    (hg : Good streams L c rd) (name : List Char) (h1 : name ≠ rootName) (h2 : name ≠ [])
+    (hg : Good streams L c rd) (name : List Char)
     (h3 : ∀ st ∈ streams, st.name ≠ name) : lookupOf c rd name = none := by
   unfold lookupOf getStream
-  have : c.dirs.find? (fun d => d.name = name) = none := by
+  have : c.dirs.find? (fun d => d.kind = STREAM_OBJECT ∧ d.name = name) = none := by
     rw [hg.dirs, List.find?_eq_none]
     intro d hd hp
-    have hp' : d.name = name := by simpa using hp
-    rcases parsedDirs_names streams L hv d hd with h | h | ⟨st, hst, h⟩
-    · exact h1 (hp'.symm.trans h)
-    · exact h2 (hp'.symm.trans h)
-    · exact h3 st hst (h.trans hp')
+    have hp' : d.kind = STREAM_OBJECT ∧ d.name = name := by simpa using hp
+    obtain ⟨st, hst, h⟩ := parsedDirs_stream_kind streams L hv d hd hp'.1
+    exact h3 st hst (h.trans hp'.2)
   rw [this]
+
+/-- entries that are not stream entries (storages, the root, unused entries) are invisible to `get_stream`,
+    whatever their names, start sectors, sizes and positions in the directory: on ANY reader state the result is
+    the one obtained from the directory restricted to its stream entries -/
+theorem getStream_streams_only (c : CfbSt) (name : List Char) (rd : Bytes) :
+    getStream c name rd =
+      match (c.dirs.filter (fun d => d.kind = STREAM_OBJECT)).find? (fun d => d.name = name) with
+      | none => .err "notfound"
+      | some d => getStreamAt c d rd := by
+  unfold getStream
+  have : c.dirs.find? (fun d => d.kind = STREAM_OBJECT ∧ d.name = name) =
+      (c.dirs.filter (fun d => d.kind = STREAM_OBJECT)).find? (fun d => d.name = name) := by
+    rw [List.find?_filter]
+    congr 1
+    funext d
+    simp [Bool.decide_and]
+  rw [this]
+  generalize (c.dirs.filter (fun d => d.kind = STREAM_OBJECT)).find? (fun d => d.name = name) = o
+  cases o <;> rfl
 
 /-- the `len` argument of `Cfb::new` is a capacity hint only: the model ignores it (definitional) -/
 theorem new_len_independent (file : Bytes) (len₁ len₂ : Nat) : Cfb.new file len₁ = Cfb.new file len₂ := rfl
